@@ -108,7 +108,8 @@ def run_shape(args):
         res = E.explore(shape.sid, run, judge, max_paths=opts.get('max_paths', shape.max_paths),
                         solver_timeout_ms=shape.solver_timeout_ms,
                         wall_budget_s=opts.get('shape_wall_s'), known_classes=excl, on_model=on_model,
-                        profile=opts.get('profile', False), max_decisions=shape.max_decisions)
+                        profile=opts.get('profile', False), max_decisions=shape.max_decisions,
+                        witnesses_per_class=opts.get('max_witness', 2))
         d = res.to_dict()
         out.update(d)
         # ---- reachability: the harness must reach its assertion on at least one path -------------
@@ -116,7 +117,7 @@ def run_shape(args):
             out['harness_errors'].append('no path reached an obligation (vacuous harness)')
         # ---- witness replay (encoding validation) ----------------------------------------------
         if opts.get('replay_witnesses', True):
-            for cls, model in list(res.witnesses.items())[:opts.get('max_witness', 3)]:
+            for cls, model in list(res.witnesses.items())[:2 * opts.get('max_witness', 3)]:
                 rep = concrete_replay(shape, model)
                 if rep.get('error'):
                     out['harness_errors'].append(f'witness replay {cls}: {rep["error"]}')
@@ -209,7 +210,7 @@ def run_property(mod, tier, seed, replay_path=None):
     shapes = mod.shapes(tier, seed)
     budget = mod.BUDGET_S[tier]
     opts = {'prop': prop, 'known': known, 'profile': True,
-            'max_witness': 2 if tier == 'quick' else 3,
+            'max_witness': 2 if tier == 'quick' else 4,
             'shape_wall_s': mod.SHAPE_WALL_S[tier] if hasattr(mod, 'SHAPE_WALL_S') else budget / 2}
     nproc = int(os.environ.get('VERIF_JOBS', os.cpu_count() or 4))
     results, unexplored = [], 0
@@ -221,8 +222,13 @@ def run_property(mod, tier, seed, replay_path=None):
                 continue
             results.append(run_shape((s, opts)))
     else:
+        # one fresh forked process per shape: solver state (and therefore solver time) does not depend on which
+        # shapes a worker happened to run before; heavy modules are imported once, here, and inherited
+        import z3  # noqa
+        import bespokeasm.assembler.engine  # noqa
+        import bespokeasm.assembler.model  # noqa
         ctxm = mp.get_context('fork')
-        with ctxm.Pool(min(nproc, max(1, len(shapes))), maxtasksperchild=200) as pool:
+        with ctxm.Pool(min(nproc, max(1, len(shapes))), maxtasksperchild=1) as pool:
             it = pool.imap_unordered(run_shape, [(s, opts) for s in shapes], chunksize=1)
             done = 0
             while done < len(shapes):
